@@ -298,7 +298,10 @@ pub fn preprocess_str<T: AsRef<Path>, U: AsRef<Path>, V: BuildHasher>(
             NodeEvent::Enter(RefNode::SourceDescriptionNotDirective(x)) => {
                 let locate: Locate = x.try_into().unwrap();
                 if let Some(last_include_line) = last_include_line {
-                    if last_include_line == locate.line {
+                    // Only the part of the text that is on the `include line counts,
+                    // and white space there is allowed.
+                    let on_line = locate.str(s).split('\n').next().unwrap_or("");
+                    if last_include_line == locate.line && !on_line.trim().is_empty() {
                         return Err(Error::IncludeLine);
                     }
                 }
